@@ -20,27 +20,75 @@ VALID = CRC_MOD + ":Crc16Modbus.validate"
 
 
 def _crc_loop_contract():
-    def fresh(it, var, label):
-        return SBV(z3.BitVec(sym.fresh_name("crc_" + label), 16))
+    """Loop contract of the byte loop, relative to the register value c0 the loop is entered with:
+    crc_k == CRC_from(c0, buffer[:k]).  In `calculate(buffer)` of the pinned tree c0 is the literal 0xFFFF, which
+    makes this the reference CRC of the prefix; stating it relative to c0 lets the same contract carry a byte loop
+    that is entered with a running register (a refactoring into `update(buffer, crc)` and a tuple of parts)."""
+    from pyvc.values import ABytes, BytesVal
 
-    def define(it, k, view):
-        # ground instances of the recursive definition of the reference CRC
-        if k == "init":
-            it.path.assume(crc_of_view(view, 0) == crc_spec.INIT, "definition: CRC of the empty prefix is 0xFFFF")
-        elif k is not None:
-            b = view.at(k)
-            step = crc_spec.byte_step(crc_of_view(view, k), SBV(z3.Int2BV(b.t, 16)))
-            it.path.assume(crc_of_view(view, k + 1) == step,
-                           "definition: CRC(prefix k+1) = byte_step(CRC(prefix k), byte k) (bitwise reference)")
+    def hook(it, node, env):
+        iterable = it.eval(node.iter, env)
+        if isinstance(iterable, (BytesVal, bytes, bytearray)) and _is_crc_byte_loop(CRC_MOD + ":", node):
+            # a buffer of known length (symbolic byte values): the loop by its contract - exit state of the invariant,
+            # crc == CRC_from(entry register, buffer); the contract itself is discharged for every buffer in crc16.calculate
+            from pyvc.loops import havoc_assigned
+            c0 = env.lookup("crc")
+            if not isinstance(c0, (int, SBV)) or isinstance(c0, bool):
+                return NotImplemented
+            havoc_assigned(it, node, env, keep=["crc"])
+            env.vars["crc"] = crc_fold([iterable], c0)
+            return None
+        if not isinstance(iterable, ABytes):
+            return NotImplemented  # a concrete sequence (a tuple of parts): iterated as it is
+        c0 = env.lookup("crc")
+        if isinstance(c0, SBV) and c0.w > 16:
+            return NotImplemented
+        c0t = bv16(c0)
 
-    def inv(it, k, st, view):
-        crc = st["crc"]
-        if isinstance(crc, int):
-            crc = SBV(z3.BitVecVal(crc, 16))
-        # the register never exceeds 16 bits, and equals the reference over the prefix
-        return And(crc.w <= 16, crc == crc_of_view(view, k))
+        def fresh(it_, var, label):
+            return SBV(z3.BitVec(sym.fresh_name("crc_" + label), 16))
 
-    return ForInvariant("crc-loop", ["crc"], fresh, inv, define=define)
+        def define(it_, k, view):
+            # ground instances of the recursive definition of the reference CRC
+            if k == "init":
+                it_.path.assume(crc_of_view(view, 0, c0) == SBV(c0t), "definition: CRC over the empty prefix is the entry register (0xFFFF at the start)")
+            elif k is not None:
+                b = view.at(k)
+                step = crc_spec.byte_step(crc_of_view(view, k, c0), SBV(z3.Int2BV(b.t, 16)))
+                it_.path.assume(crc_of_view(view, k + 1, c0) == step,
+                                "definition: CRC(prefix k+1) = byte_step(CRC(prefix k), byte k) (bitwise reference)")
+
+        def inv(it_, k, st, view):
+            crc = st["crc"]
+            if isinstance(crc, int):
+                crc = SBV(z3.BitVecVal(crc, 16))
+            # the register never exceeds 16 bits, and equals the reference over the prefix
+            return And(crc.w <= 16, crc == crc_of_view(view, k, c0))
+
+        return ForInvariant("crc-loop", ["crc"], fresh, inv, define=define)(it, node, env)
+
+    return hook
+
+
+def _is_crc_byte_loop(fullname, node):
+    """Any `for <v> in <...>` of the crc16 module whose body updates a local called crc."""
+    import ast
+    if not fullname.startswith(CRC_MOD + ":") or not isinstance(node, ast.For):
+        return False
+    for n in ast.walk(node):
+        if isinstance(n, (ast.AugAssign, ast.Assign)):
+            tg = [n.target] if isinstance(n, ast.AugAssign) else n.targets
+            if any(isinstance(t, ast.Name) and t.id == "crc" for t in tg) and any(
+                    isinstance(x, ast.Subscript) for x in ast.walk(n.value)):
+                return True
+    return False
+
+
+def install_crc_loop_contract(h):
+    hk = _crc_loop_contract()
+    h.it.loop_hooks[(CALC, 0)] = hk
+    if not any(p is _is_crc_byte_loop for p, _ in h.it.loop_matchers):
+        h.it.loop_matchers.append((_is_crc_byte_loop, hk))
 
 
 def expected_check_bytes(h, buf):
@@ -55,7 +103,7 @@ def calculate_contract(h):
     buf = h.abytes("buffer", max_len=None)
     calc = h.new(CRC_MOD + ":Crc16Modbus")
     if h.symbolic:
-        h.it.loop_hooks[(CALC, 0)] = _crc_loop_contract()
+        install_crc_loop_contract(h)
     r = h.method(calc, "calculate", buf)
     h.oblige("never raises", r.ok)
     if not r.ok:
@@ -69,6 +117,47 @@ def calculate_contract(h):
     h.cover("calculate returns")
 
 
+@oset("crc16.calculate.parts", ["C06"], [CALC],
+      assumptions=["bytes objects hold values 0..255 (CPython invariant)"])
+def calculate_parts_contract(h):
+    """The checksum over data handed over in parts.  The pinned calculate() takes one buffer and refuses a tuple of
+    buffers with TypeError; a calculate() that accepts its data in parts must return the CRC-16/MODBUS of the joined
+    bytes (the check bytes cover 'address through payload' whatever way the caller hands them over).  Every byte loop
+    of the module is under the entry-relative loop contract."""
+    b1 = h.abytes("part1", max_len=None)
+    b2 = h.abytes("part2", max_len=None)
+    calc = h.new(CRC_MOD + ":Crc16Modbus")
+    shape = h.native_choice("boundary_register", ["as drawn", "0x0000 at the part boundary", "0xFFFF at the part boundary"])
+    if not h.symbolic and shape != "as drawn":
+        # native search only: a running register that reaches a special value exactly at the part boundary is a
+        # 1-in-65536 event for random data; two appended bytes steer it there (the step function is a bijection on
+        # the low byte for a fixed input byte pair, so some pair always exists)
+        want = 0x0000 if shape.startswith("0x0000") else 0xFFFF
+        base = bytes(b1)
+        for v in range(65536):
+            cand = base + bytes([v >> 8, v & 0xFF])
+            if crc_spec.crc16_modbus(cand) == want:
+                b1 = cand
+                break
+    if h.symbolic:
+        install_crc_loop_contract(h)
+    r = h.method(calc, "calculate", (b1, b2))
+    h.oblige("data in parts: refused with TypeError, or no exception at all", Or(r.ok, r.raised("TypeError")))
+    if not r.ok:
+        h.cover("data in parts is refused")
+        return
+    items = h.items(r.value)
+    h.oblige("data in parts: exactly two check bytes", len(items) == 2)
+    if len(items) != 2:
+        return
+    if h.symbolic:
+        exp = crc_bytes_of(crc_fold([b1, b2]))
+    else:
+        exp = list(crc_spec.check_bytes(bytes(b1) + bytes(b2)))
+    h.oblige("data in parts: the check bytes are CRC-16/MODBUS of the joined bytes, high byte first",
+             And(items[0] == exp[0], items[1] == exp[1]))
+
+
 def use_calculate_contract(h):
     """Modular use of the contract above at call sites: calculate(buffer) -> check bytes of CRC(buffer)."""
     from pyvc.values import BytesVal, ABytes
@@ -76,6 +165,11 @@ def use_calculate_contract(h):
 
     def hook(it, fn, args, kwargs):
         buf = args[1] if len(args) > 1 else kwargs["buffer"]
+        if not isinstance(buf, (Rope, BytesVal, ABytes, bytes, bytearray)):
+            # outside the contract's precondition (one byte buffer): the callee's body is executed instead, its byte
+            # loop under the loop contract above
+            install_crc_loop_contract(h)
+            return NotImplemented
         parts = buf.parts if isinstance(buf, Rope) else [buf]
         reg = crc_fold(parts)
         return BytesVal(crc_bytes_of(reg))
